@@ -306,6 +306,11 @@ impl Ctx {
                 r.flag = Some(std::fs::remove_file(path).is_ok());
                 r
             }
+            OpKind::Mutate { dir, target, action, off, len, arg } => {
+                let mut r = ok_res();
+                r.text = Some(mutate(dir, target, action, *off, *len, *arg));
+                r
+            }
             OpKind::ListDir { dir } => {
                 let mut names: Vec<(String, u64)> = Vec::new();
                 if let Ok(rd) = std::fs::read_dir(dir) {
@@ -348,6 +353,90 @@ impl Ctx {
                 ..Default::default()
             });
         }
+    }
+}
+
+fn mutate(dir: &str, target: &str, action: &str, off: u64, len: u64, arg: u64) -> String {
+    use std::io::{Seek, SeekFrom, Write};
+    use std::os::unix::fs::FileExt;
+    let path = if let Some(k) = target.strip_prefix("wal:") {
+        let k: usize = k.parse().unwrap_or(0);
+        let mut wal: Vec<String> = std::fs::read_dir(dir)
+            .map(|rd| rd.flatten().map(|e| e.file_name().to_string_lossy().into_owned()).filter(|n| !n.is_empty() && n.bytes().all(|b| b.is_ascii_digit())).collect())
+            .unwrap_or_default();
+        wal.sort();
+        if wal.is_empty() {
+            return "no wal file".into();
+        }
+        format!("{}/{}", dir, wal[k % wal.len()])
+    } else if let Some(n) = target.strip_prefix("new:") {
+        format!("{}/{}", dir, n)
+    } else {
+        match target {
+            "index" => format!("{}/read_offset_idx_index.db", dir),
+            "clean" => format!("{}/topic_clean_index.db", dir),
+            "index_tmp" => format!("{}/read_offset_idx_index.db.tmp", dir),
+            "clean_tmp" => format!("{}/topic_clean_index.db.tmp", dir),
+            _ => format!("{}/{}", dir, target),
+        }
+    };
+    let noise = |n: u64, seed: u64| -> Vec<u8> {
+        let mut x = seed ^ 0xD1CE;
+        (0..n).map(|_| crate::rng::splitmix(&mut x) as u8).collect()
+    };
+    let res: std::io::Result<String> = (|| {
+        match action {
+            "mkdir" => {
+                std::fs::create_dir_all(&path)?;
+                Ok(format!("mkdir {}", path))
+            }
+            "create" => {
+                std::fs::write(&path, noise(len, arg))?;
+                Ok(format!("create {} len {}", path, len))
+            }
+            "truncate" => {
+                let f = std::fs::OpenOptions::new().write(true).open(&path)?;
+                f.set_len(off)?;
+                Ok(format!("truncate {} to {}", path, off))
+            }
+            "flip" => {
+                let f = std::fs::OpenOptions::new().read(true).write(true).open(&path)?;
+                let flen = f.metadata()?.len();
+                if flen == 0 {
+                    return Ok("empty".into());
+                }
+                let o = off % flen;
+                let mut b = [0u8; 1];
+                f.read_at(&mut b, o)?;
+                b[0] ^= 1 << (arg % 8);
+                f.write_at(&b, o)?;
+                Ok(format!("flip {} byte {} bit {}", path, o, arg % 8))
+            }
+            "zero" => {
+                let f = std::fs::OpenOptions::new().read(true).write(true).open(&path)?;
+                let flen = f.metadata()?.len();
+                if flen == 0 {
+                    return Ok("empty".into());
+                }
+                let o = off % flen;
+                let l = len.min(flen - o);
+                f.write_at(&vec![0u8; l as usize], o)?;
+                Ok(format!("zero {} [{}..{})", path, o, o + l))
+            }
+            "garbage" => {
+                let mut f = std::fs::OpenOptions::new().read(true).write(true).create(true).open(&path)?;
+                let flen = f.metadata()?.len();
+                let o = if off == u64::MAX { flen } else { off.min(flen) };
+                f.seek(SeekFrom::Start(o))?;
+                f.write_all(&noise(len, arg))?;
+                Ok(format!("garbage {} [{}..{})", path, o, o + len))
+            }
+            _ => Ok("unknown action".into()),
+        }
+    })();
+    match res {
+        Ok(s) => s,
+        Err(e) => format!("mutation not applied: {}", e),
     }
 }
 
